@@ -788,8 +788,8 @@ def c08_families(rng, tier):
     rel = [line("relabel %d" % (5 + j % 3), rand_hand(rng, 5 + j % 3)) for j in range(600)]
     rel += [l.replace("x ", "relabel 6 ", 1) for l in made_hands(rng, 6, 150, "x")] + [l.replace("x ", "relabel 7 ", 1) for l in made_hands(rng, 7, 150, "x")]
     return sweeps(rng, tier, lambda k: "relabel %d" % k, "1 1", "C08_projection_relabel",
-                  "value and validated value identical under all 24 relabellings of the four suits (cards rebuilt through the accessors "
-                  "and create)", sizes=(5, 6, 7), name="relabel", quick_strides={5: (1, 4, 4), 6: (16, 64, 64), 7: (128, 512, 512)},
+                  "value and validated value identical under all 24 relabellings of the four suits (cards rebuilt from the documented layout "
+                  "alone: same rank field, the suit bit moved)", sizes=(5, 6, 7), name="relabel", quick_strides={5: (1, 4, 4), 6: (16, 64, 64), 7: (128, 512, 512)},
                   thorough_stride={7: 4}) + [
         fam("relabel_projection", rel, "the projection the relabelling sweeps use, on model and implementation", pinned=True)] + \
         sweeps(rng, tier, lambda k: "shiftinv %d" % k, "1 1 1 1 1 1 1", "C08_projection",
